@@ -24,7 +24,7 @@ RULE = ("Part A: a csr.Decoder over 0-5 plain subordinate interfaces (sizes 2..3
         "registers. Distinct = canonical JSON.")
 BUDGET = {"quick": (16, 200), "thorough": (16, 4000)}
 ESSENTIAL = ["part:A", "part:B", "unassigned_address", "alignment_padding_address", "named", "anonymous",
-             "explicit_slot", "refused_add_ghost", "add_after_elaboration", "readd_refused", "decoder_beyond_32_address_bits", "subordinates>=6", "B:depth>=2", "full_width_sub", "add_order_differs_from_address_order"]
+             "explicit_slot", "refused_add_ghost", "readd_refused", "decoder_beyond_32_address_bits", "subordinates>=6", "B:depth>=2", "full_width_sub", "add_order_differs_from_address_order"]
 ASSUMPTIONS = [
     "subordinates obey the CSR bus protocol: r_data is zero except in the cycle after their own r_stb",
     "part B uses shadow_overlaps=None everywhere (C05 covers sharing limits)",
